@@ -276,3 +276,167 @@ Proof.
     + destruct (mon_entry_viol_30 _ _ _ _ _ _ E30 Hin) as [H|[->|[_ [_ [[-> _]|[-> _]]]]]]; [left; exact H| | |]; right; split; discriminate.
     + rewrite (mon_entry_viol_other _ _ _ _ _ N30 N32) in Hin. left. exact Hin.
 Qed.
+
+(** ---- all checks along an incarnation, the replay's state threaded ---- *)
+Fixpoint r_entries (cfg : config) (bs : Z) (cfgsx objs : sx) (ops : list sx) (x : xst) (m : mst) (l : lst)
+    (es : list sx) : bool :=
+  match es with
+  | [] => true
+  | e :: r =>
+      l_check cfgsx m l e && r_check objs x l e &&
+      match replay_entry cfg bs x e with
+      | Some x' => r_entries cfg bs cfgsx objs ops x' (mon_entry cfgsx objs ops m e) (l_step cfgsx m l e) r
+      | None => true
+      end
+  end.
+
+Lemma entries_all2 o cfg bs cfgsx objs ops st0 : forall es n m l x x1 gx,
+  G o (x_sys x) gx -> J m (x_sys x) gx -> K st0 x gx -> Bw (x_sys x) gx -> Sn (x_sys x) gx ->
+  Lkg (fun _ => True) m l (x_sys x) gx ->
+  replay_entries cfg bs n x es = (x1, []) -> r_entries cfg bs cfgsx objs ops x m l es = true ->
+  exists gx1, G o (x_sys x1) gx1 /\
+    J (fold_left (mon_entry cfgsx objs ops) es m) (x_sys x1) gx1 /\ K st0 x1 gx1 /\ Bw (x_sys x1) gx1 /\
+    Sn (x_sys x1) gx1 /\
+    Lkg (fun _ => True) (fold_left (mon_entry cfgsx objs ops) es m) (l_fold cfgsx objs ops m l es) (x_sys x1) gx1 /\
+    forall z, In z (m_viol (fold_left (mon_entry cfgsx objs ops) es m)) -> In z (m_viol m) \/ no14 z.
+Proof.
+  induction es as [|e es IH]; intros n m l x x1 gx Hg Hj Hk Hb Hsn HL H C; cbn [replay_entries r_entries] in H, C.
+  - inversion H; subst. exists gx. cbn. splits; auto.
+  - destruct (replay_entry cfg bs x e) as [x'|] eqn:R; [|discriminate].
+    apply andb_prop in C. destruct C as [C C2]. apply andb_prop in C. destruct C as [C1 C3].
+    destruct (entry_inv o cfg bs cfgsx objs ops m x e x' gx Hg Hj R) as [gx' [Hp [Hj' Hpost]]].
+    assert (Hg' : G o (x_sys x') gx') by (eapply G_gpath; eauto).
+    pose proof (entry_K cfg bs st0 e x gx x' gx' Hk Hp Hpost) as Hk'.
+    pose proof (Bw_gpath _ _ _ _ _ _ Hp Hb) as Hb'.
+    pose proof (Sn_gpath _ _ _ _ _ _ Hp Hsn) as Hsn'.
+    pose proof (entry_Lk _ cfgsx objs ops cfg bs m l x e x' gx gx' R Hp Hpost C1 HL) as HL'.
+    destruct (IH _ _ _ _ _ _ Hg' Hj' Hk' Hb' Hsn' HL' H C2) as [gx1 [A1 [A2 [A3 [A4 [A5 [A6 A7]]]]]]].
+    exists gx1. cbn [fold_left l_fold]. splits; auto.
+    intros z Hz. destruct (A7 z Hz) as [Hz'|Hz']; [|right; exact Hz'].
+    apply (entry_no14 o cfgsx objs ops m l x gx e z Hg HL C3 Hz').
+Qed.
+
+(** ---- all incarnations ---- *)
+Definition l_exit (prev : Z) (l : lst) : list (copy * rref) :=
+  if Z.eqb prev 0 then [] else map (fun cr => (mkCopy (c_key (fst cr)) (c_loc (fst cr)) true, snd cr)) (l_cr l).
+
+Fixpoint r_hists (c : sx) (cfg : config) (bs : Z) (cfgsx objs : sx) (incs hists : list sx) (m : mst)
+    (crs : list (copy * rref)) (st0 : pstate) (now : N) : bool :=
+  match incs, hists with
+  | inc :: incs', h :: hists' =>
+      match sx_list h with
+      | e0 :: es =>
+          match replay_restore c cfg bs st0 now e0 with
+          | Some x0 =>
+              let ops := sx_list (sx_nth inc 1) in
+              let m' := mon_entry cfgsx objs ops m e0 in
+              all_restored e0 && r_entries cfg bs cfgsx objs ops x0 m' (l0 crs) es &&
+              (let x1 := fst (replay_entries cfg bs 1 x0 es) in
+               let m1 := fold_left (mon_entry cfgsx objs ops) es m' in
+               let l1 := l_fold cfgsx objs ops m' (l0 crs) es in
+               r_hists c cfg bs cfgsx objs incs' hists' (mon_exit m1) (l_exit (m_prev (mon_exit m1)) l1)
+                       (x_state x1) (s_now (x_sys x1)))
+          | None => true
+          end
+      | [] => true
+      end
+  | _, _ => true
+  end.
+
+Definition r_obs (inp obs : sx) : bool :=
+  let c := sx_nth inp 0 in
+  r_hists c (mkConfig (sx_N (sx_nth c 9)) (sx_N (sx_nth c 10))) (sx_Z (sx_nth c 0)) c (sx_nth inp 1)
+          (sx_list (sx_nth inp 2)) (sx_list obs) m_init [] init_pstate 0%N.
+
+Lemma l_exit_copies prev m l : map fst (l_cr l) = m_copies m ->
+  map fst (l_exit prev l) =
+  (if Z.eqb prev 0 then [] else map (fun c => mkCopy (c_key c) (c_loc c) true) (m_copies m)).
+Proof.
+  intros H. unfold l_exit. destruct (Z.eqb prev 0); [reflexivity|]. rewrite <- H, !map_map. reflexivity.
+Qed.
+
+Lemma incs_no14 c cfg bs cfgsx objs : forall hists incs m crs inc st0 now A,
+  m_fresh m -> m_upl m = [] -> map fst crs = m_copies m ->
+  G (fst st0) (init_sys (restart_of st0) now) (g_inh A) ->
+  (forall cp ref, In (cp, ref) crs -> ack_for (init_sys (restart_of st0) now) (g_inh A) ref (Some (c_loc cp))) ->
+  replay_hists c cfg bs inc st0 now hists = [] ->
+  r_hists c cfg bs cfgsx objs incs hists m crs st0 now = true ->
+  forall z, In z (m_viol (mon_incs cfgsx objs incs hists m)) -> In z (m_viol m) \/ no14 z.
+Proof.
+  induction hists as [|h hs IH]; intros [|ic incs] m crs inc st0 now A Hf Hu Hcr Hg Hack Hr Hck z Hin;
+    cbn [mon_incs] in Hin; auto.
+  destruct (replay_hists_cons _ _ _ _ _ _ _ _ Hr) as [e0 [es [x0 [x1 [Eh [R0 [R1 R2]]]]]]].
+  cbn [r_hists] in Hck. rewrite Eh, R0 in Hck. cbv zeta in Hck. rewrite R1 in Hck. cbn [fst] in Hck.
+  apply andb_prop in Hck. destruct Hck as [Hck Hnext]. apply andb_prop in Hck. destruct Hck as [Hall Hent].
+  rewrite Eh in Hin. cbn [fold_left] in Hin.
+  destruct (restore_is_restart _ _ _ _ _ _ _ R0 Hall) as [T0 [Hst Hx0]].
+  set (ops := sx_list (sx_nth ic 1)) in *.
+  set (m' := mon_entry cfgsx objs ops m e0) in *.
+  rewrite <- Hx0 in Hg, Hack.
+  pose proof (J_restore_entry cfgsx objs ops m e0 (x_sys x0) (g_inh A) T0 Hf) as Hj0. fold m' in Hj0.
+  assert (Hk0 : K st0 x0 (g_inh A)) by (unfold K; cbn; exact Hst).
+  assert (Hb0 : Bw (x_sys x0) (g_inh A)) by (apply Bw_nowrites; reflexivity).
+  assert (Hs0 : Sn (x_sys x0) (g_inh A)) by (apply Sn_nowrites; reflexivity).
+  assert (HL0 : Lkg (fun _ => True) m' (l0 crs) (x_sys x0) (g_inh A)).
+  { apply (Lk_start _ cfgsx objs ops c cfg bs st0 now e0 x0 m (g_inh A) crs R0 T0 Hu Hcr). intros cp ref Hc _. auto. }
+  destruct (entries_all2 (fst st0) cfg bs cfgsx objs ops st0 es 1 m' (l0 crs) x0 x1 (g_inh A)
+              Hg Hj0 Hk0 Hb0 Hs0 HL0 R1 Hent) as [gx [Hg1 [Hj1 [Hk1 [Hb1 [Hs1 [HL1 Hv1]]]]]]].
+  set (m1 := fold_left (mon_entry cfgsx objs ops) es m') in *.
+  set (l1 := l_fold cfgsx objs ops m' (l0 crs) es) in *.
+  (* violations of this incarnation *)
+  assert (Hthis : forall z, In z (m_viol m1) -> In z (m_viol m) \/ no14 z).
+  { intros z0 Hz0. destruct (Hv1 z0 Hz0) as [H|H]; [|right; exact H].
+    unfold m' in H. rewrite (mon_entry_viol_other _ _ _ _ _) in H by (rewrite T0; discriminate). left. exact H. }
+  (* the next incarnation *)
+  assert (Hnx : exists A', G (fst (x_state x1)) (init_sys (restart_of (x_state x1)) (s_now (x_sys x1))) (g_inh A') /\
+            forall cp ref, In (cp, ref) (l_exit (m_prev (mon_exit m1)) l1) ->
+              ack_for (init_sys (restart_of (x_state x1)) (s_now (x_sys x1))) (g_inh A') ref (Some (c_loc cp))).
+  { unfold l_exit. destruct (Z.eqb_spec (m_prev (mon_exit m1)) 0) as [E|N].
+    - exists []. split; [apply G_fresh|]. intros cp ref [].
+    - assert (Hcov : exists w rest, gs_writes gx = w :: rest /\ gw_cohort w = g_acks (gs_g gx) /\
+                       forall a, In a (g_acks (gs_g gx)) -> covers w a).
+      { revert N. unfold mon_exit. cbn [m_prev]. destruct (m_exited m1) eqn:Ex.
+        - intros _. apply (graceful_G (fst st0) _ _ Hg1). apply (j_e _ _ _ _ _ _ _ _ _ _ Hj1 Ex).
+        - destruct (Nat.ltb_spec (m_lastput m1) (m_commit m1)) as [L|L]; [|intros Hc; exfalso; apply Hc; reflexivity].
+          intros _. destruct (j_p4 _ _ _ _ _ _ _ _ _ _ Hj1 L) as [w [Hinw Hc]]. eapply crash_covers_G; eauto. }
+      destruct Hcov as [w [rest [Hw [Hc Hcv]]]].
+      assert (Hxs : x_state x1 = gw_state w) by (unfold K in Hk1; rewrite Hw in Hk1; exact Hk1).
+      exists (inh_list w (g_acks (gs_g gx))). rewrite Hxs. split.
+      + destruct Hg1 as [[[[I1 [Gi [Wk _]]] R] Ch] Ps]. apply (G_inherit (fst st0)).
+        * rewrite Hw in Wk. apply Forall_inv in Wk. destruct Wk as [_ [_ Wk]]. exact Wk.
+        * apply (gi_static _ _ _ Gi).
+        * exact Hcv.
+      + intros cp ref Hinc. apply in_map_iff in Hinc. destruct Hinc as [[cp0 ref0] [Heq Hin0]].
+        cbn [fst snd] in Heq. inversion Heq; subst cp ref. cbn [c_loc].
+        destruct (lk_ack _ _ _ _ _ HL1 cp0 ref0 Hin0 I) as [a [Ha [Hr1 [Hr2 [Hge Hloc]]]]].
+        eapply carry_ack; eauto. }
+  destruct Hnx as [A' [Hg' Hack']].
+  assert (Hcr' : map fst (l_exit (m_prev (mon_exit m1)) l1) = m_copies (mon_exit m1)).
+  { rewrite (l_exit_copies _ m1 l1 (lk_cr _ _ _ _ _ HL1)). unfold mon_exit. cbn [m_copies m_prev]. reflexivity. }
+  destruct (IH incs (mon_exit m1) _ (S inc) _ _ A' (mon_exit_fresh m1) eq_refl Hcr' Hg' Hack' R2 Hnext z Hin) as [H|H];
+    [|right; exact H].
+  cbn [mon_exit m_viol] in H. apply Hthis. exact H.
+Qed.
+
+(** ---- clauses 1 and 4 ---- *)
+Theorem mon03_clauses14_silent inp obs : replay03 inp obs = [] -> r_obs inp obs = true ->
+  forall z, In z (mon03 inp obs) -> z <> 1%Z /\ z <> 4%Z.
+Proof.
+  intros Hr Hck z Hin. unfold mon03 in Hin. destruct (is_marker obs).
+  - destruct (Z.eqb _ _); destruct Hin as [<-|[]]; split; discriminate.
+  - apply dedupz_in in Hin. unfold replay03 in Hr. unfold r_obs in Hck.
+    assert (H : In z (m_viol m_init) \/ no14 z).
+    { eapply (incs_no14 _ _ _ _ _ (sx_list obs) (sx_list (sx_nth inp 2)) m_init [] 0 init_pstate 0%N []);
+        [apply m_init_fresh|reflexivity|reflexivity|apply G_fresh|intros cp ref []|exact Hr|exact Hck|exact Hin]. }
+    destruct H as [[]|H]; exact H.
+Qed.
+
+(** all together: only clause 5 (wrong bytes) is left *)
+Theorem mon03_silent_on_accepted_partial2 inp obs :
+  is_marker obs = false -> replay03 inp obs = [] -> u_obs inp obs = true -> r_obs inp obs = true ->
+  forall z, In z (mon03 inp obs) -> z = 5%Z.
+Proof.
+  intros Hm Hr Hu Hck z Hin.
+  destruct (mon03_silent_on_accepted_partial inp obs Hm Hr Hu z Hin) as [->|[->| ->]]; [| |reflexivity];
+    destruct (mon03_clauses14_silent inp obs Hr Hck _ Hin) as [N1 N4]; congruence.
+Qed.
